@@ -39,6 +39,7 @@ CMPF = ["U.cmpf.str", "U.cmpf.prefix", "U.cmpf.str_noaccent", "U.cmpf.prefix_noa
 STRL = ["U.str.nfkd_lazy", "B.str.nfkd_lazy", "U.str.split"]
 STORE = ["U.st.store", "U.st.load", "U.api.store", "U.api.load", "L.st.inv1", "L.st.inv2"]
 BD = ["U.bd.encode", "U.bd.decode"]
+NDEBUG = ["U.api.free@ndebug", "U.api.create@ndebug", "U.api.load@ndebug", "U.api.crypt@ndebug", "U.api.decode@ndebug", "U.api.decode_explicit@ndebug", "U.lang.phrase_decode@ndebug", "U.api.keygen@ndebug", "U.api.encode@ndebug"]
 ND_COMMON = []
 
 def uniq(l):
@@ -50,6 +51,7 @@ def uniq(l):
 
 P("C01", level="proof", design_ref="7/C01", units=PACK + ["U.api.encode", "U.str.write", "U.str.write.full"] + DEC + PHR + ["U.lang.search", "U.str.split", "U.str.nfkd_lazy", "L.rt.index", "U.lang.get_comparer"],
   engines=["tables", "statics"],
+  technique='CBMC 6.11 contracts: dfcc-enforced function contracts on pack/unpack with inverse lemmas; harness-enforced contracts (woven loop invariants, contract stubs) on encode, both decoders, both phrase decoders, tokeniser, lazy NFKD, search; round-trip lemma over those contracts; closed word-list facts by exhaustive native evaluation; goto symbol-table scan for hidden state',
   text="Round trip decomposed into contracts proved on the real functions: packing/unpacking against the published layout with both "
        "inverse lemmas; polyseed_encode (sequence-level contract over an abstract language object: 16 words and 15 separators in order, "
        "cursor arithmetic, NFC hand-off); both decoders (status function and inverse layout); both phrase decoders over an arbitrary "
@@ -61,12 +63,14 @@ P("C01", level="proof", design_ref="7/C01", units=PACK + ["U.api.encode", "U.str
        "bsearch is trusted; byte content of the joined text inside polyseed_encode follows from the proved call sequence plus write_str's contract.",
   not_decided=["one end-to-end theorem over real strings (the composition above is glue)"])
 P("C02", level="proof", design_ref="7/C02", units=uniq(GF + ["L.gf.single", "L.gf.swap", "L.gf.unique", "U.api.load"] + DEC + PHR + ["U.lang.search", "U.str.split", "U.str.nfkd_lazy"]), engines=["tables", "statics"],
+  technique="CBMC 6.11 contracts: dfcc-enforced contracts on the GF(2^11) layer against a Horner specification; single-error / transposition / uniqueness lemmas over the gf_poly_check contract; decoder, phrase-decoder and load contracts for the status; closed fact 'distinct words' by exhaustive evaluation",
   text="gf_elem_mul2, gf_poly_eval, gf_poly_encode, gf_poly_check are proved equal to a GF(2^11) Horner specification for "
        "all 2048 elements / all 2^176 polynomials; single-error, transposition and check-word-uniqueness lemmas are proved "
        "over those contracts with every coefficient, position and value symbolic; the decoders' and polyseed_load's contracts show the "
        "checksum status is returned exactly when the evaluation is non-zero, before any allocation (decoders) and with no seed surviving.",
   note="'another word of the same list' = another coefficient by the closed fact T.distinct (all words pairwise distinct under the comparer).")
 P("C03", level="proof", design_ref="7/C03", units=["U.gf.pack", "U.gf.encode", "L.gf.unique", "U.api.encode", "U.str.write", "U.str.write.full", "U.api.create", "L.rt.index"], engines=["tables", "statics"],
+  technique='CBMC 6.11 contracts: dfcc-enforced contract of polyseed_data_to_poly against the published layout written independently; harness-enforced sequence contract of polyseed_encode; write_str proved with a woven loop invariant; registry/golden facts exhaustive; goto symbol-table scan for hidden state (purity)',
   text="polyseed_data_to_poly is proved equal to the published layout written independently in spec.h (check word first, 10 secret bits MSB "
        "first + one feature/birthday bit per word); polyseed_encode is proved to use the stored check value as word 1, XOR the coin into word 2 "
        "only, write words[c0] sep ... words[c15] in order with the language's separator and apply NFC exactly when the language composes, "
@@ -74,22 +78,26 @@ P("C03", level="proof", design_ref="7/C03", units=["U.gf.pack", "U.gf.encode", "
   note="spec.h is the independent implementation; encode is proved over an abstract language object (table entry x -> one of 16 arbitrary strings); "
        "NFC itself is an injected dependency.")
 P("C04", level="proof", design_ref="7/C04", units=["U.api.keygen", "L.kdf.injective", "L.rt.index", "L.crypt.involution", "U.api.crypt", "U.gf.unpack", "U.st.load", "U.api.create"], engines=["statics"],
+  technique="CBMC 6.11 contracts: dfcc-enforced contract of polyseed_keygen with a ghost-recording PBKDF2 stub (every argument byte pinned, frame checked by assigns clauses); injectivity lemma; constructors' zero-padding contracts; goto symbol-table scan for hidden state",
   text="polyseed_keygen is proved against a contract that pins every KDF argument byte for byte (ghost-recording stub): "
        "one call, pw = 32-byte secret buffer, 32-byte salt per the published layout, 10000 iterations, caller's buffer and "
        "length passed through, key bytes not touched afterwards, no other dependency called, seed unchanged (frame); injectivity lemma; "
        "every constructor zero-pads the secret buffer, so equal abstract seeds give equal inputs on every path.",
   note="The PBKDF2 function itself is an injected dependency (assumed). key_size is symbolic in 1..64 (object-size cap).")
 P("C05", level="proof", design_ref="7/C05", units=uniq(["L.gf.coin", "U.gf.mul2", "U.gf.eval", "U.gf.check", "U.api.encode", "L.rt.index"] + DEC + PHR + ["U.gf.pack", "U.str.split"]), engines=["tables", "statics"],
+  technique="CBMC 6.11 contracts: coin lemma over the gf_poly_check contract (all coin pairs symbolic); encode / decoder / phrase-decoder contracts; round-trip lemma with two coins; closed fact 'distinct words'",
   text="Lemma over the gf_poly_check contract: a valid codeword with coin A applied and coin B removed validates iff A == B, "
        "for all 2048x2048 pairs and all polynomials; encode applies the coin to word 2 only and after the check value, both decoders remove it "
        "before the check; L.rt.index: decode(encode(s, A), B) is OK iff A == B, ERR_CHECKSUM otherwise, and the phrases differ in word 2 only.",
   note="'differ in the second word only' at the level of strings uses the closed fact that distinct indices are distinct words.")
 P("C06", level="proof", design_ref="7/C06", units=uniq(["U.st.store", "U.st.load", "U.api.store", "U.api.load", "L.st.inv1", "L.st.inv2"] + FT + ["U.gf.pack", "U.gf.check", "U.api.free"]), engines=["statics"],
+  technique='CBMC 6.11 contracts: dfcc-enforced contracts of polyseed_data_store / polyseed_data_load against a byte-level image specification (all 2^256 buffers), polyseed_load status precedence and allocator ledger, both inverse lemmas; feature-mask contracts',
   text="polyseed_data_store / polyseed_data_load proved against the byte-level image specification for all seeds and all 2^256 "
        "buffers; polyseed_load proved to return MEMORY, FORMAT, CHECKSUM, UNSUPPORTED, OK in that precedence, to hand out a "
        "canonical seed whose image is the buffer on OK and to free the wiped block otherwise; inverse lemmas over the contracts.",
   note="LP64 only; allocator/free/memzero are stubs (assumed).")
 P("C07", level="other", design_ref="7/C07, 6", units=uniq(["U.lang.search", "U.lang.get_comparer", "U.lang.registry"] + CMPU + ["U.str.split", "U.str.nfkd_lazy"] + PHR + DEC + CMPF + CMPB), engines=["tables"], exhaustive=True,
+  technique='exhaustive native evaluation of closed obligations over the 10 x 2048 constant strings through the real comparers and the real search (deciding step), golden digests; CBMC contracts for lang_search, the comparers (functional rule, woven invariants), tokeniser, phrase decoders; order lemma for binary search',
   text="Mostly closed obligations over 10 x 2048 constant strings, decided by exhaustive native evaluation through the real comparers and the real "
        "search (registry, strict sortedness, all pairs distinct, each word found at its own index, first-four-letters uniqueness, Unicode "
        "stability with utf8proc, SHA-256 against the digests recorded at the pinned release); the contract part (lang_search returns the index "
@@ -98,29 +106,40 @@ P("C07", level="other", design_ref="7/C07, 6", units=uniq(["U.lang.search", "U.l
        "KNOWN FINDING: the literal clause 'no word is a prefix of another' is false for the published English and Spanish lists "
        "(act/action, ano/anotar ...: words shorter than four letters); lists are frozen, see known_findings.json.")
 P("C08", level="proof", design_ref="7/C08", units=uniq(CMPB + CMPU + ["U.lang.get_comparer"] + DEC + STRL + PHR + CMPF), engines=["tables"],
-  text="Each comparer is checked equal to the reference acceptance rule (full word, or prefix of >= 4 base letters, accents = non-ASCII bytes "
-       "ignored in es/fr) for all keys <= 10 bytes and elements <= 8 bytes (bounded, not counted as proved), proved memory-safe and terminating "
-       "for all strings, compare_str proved functionally for all strings; the real search is evaluated exhaustively on every prefix length x "
-       "accent subset x NFC/NFKD spelling x one-letter continuation of every word of every list against the rule; decoders depend on tokens only "
-       "through the search result.",
-  note="Comparer functional equivalence is BOUNDED in the key length (stated); 'accent' means any non-ASCII byte after NFKD (stated interpretation).")
+  technique='CBMC 6.11 contracts: the four comparers against the acceptance rule with woven inductive invariants (compare_str / compare_prefix full domain; accent-skipping comparers bounded in the key length in the quick tier, full key object in the thorough tier), bounded shadow units without woven text, unbounded memory-safety units; order lemma; exhaustive evaluation of the rule on every prefix x accent subset x spelling of every word through the real search',
+  text="Each comparer is proved equal to the reference acceptance rule (full word, or prefix of >= 4 base letters, accents = non-ASCII bytes "
+       "ignored in es/fr) AND to the order of the first differing letters, with woven inductive invariants over ghost count / stripped-string "
+       "arrays: compare_str and compare_prefix for every key in an object as large as a polyseed_str and every element object up to 64 bytes "
+       "(unbounded route, all byte values, both char settings); the two accent-skipping comparers for keys up to 63 bytes in the quick tier "
+       "(bounded in the key length, not counted as proved) and for the full key object in the thorough tier; all four proved memory-safe and "
+       "terminating for all strings; bounded shadow units without woven text; order lemma (what binary search needs) over the comparer "
+       "contract; the real search is evaluated exhaustively on every prefix length x accent subset x NFC/NFKD spelling x one-letter "
+       "continuation of every word of every list against the rule; decoders depend on tokens only through the search result; lazy NFKD and "
+       "the tokeniser are proved for strings of any length.",
+  note="Quick tier: the accent-skipping comparers' functional rule is BOUNDED in the key length (63 bytes); element length is exact by the closed "
+       "fact T.wordlen. 'accent' means any non-ASCII byte after NFKD (stated interpretation). The ghost arrays are fixed by axioms A1-A5 "
+       "(harness/cmp_rule.c); A5 follows from A1 by induction over the position (base and step checked in L.cmpf.axioms).")
 P("C09", level="proof", design_ref="7/C09", units=uniq(PHR + DEC + ["U.str.split", "U.lang.search"] + ["U.str.nfkd_lazy", "U.gf.check", "U.lang.get_comparer"]), engines=["tables", "statics"],
+  technique='CBMC 6.11 contracts: both phrase decoders over an arbitrary search-outcome matrix (lang_search replaced by its contract), both API decoders with contract stubs (status precedence), str_split against a functional tokeniser specification with woven loop invariants; closed facts on the tables',
   text="Both phrase decoders are proved over every search-outcome matrix (OK iff exactly one language recognises all 16 tokens, then the same "
        "indices and language as explicit decoding; MULT_LANG iff two or more, regardless of checksums; LANG iff none); both API decoders are "
        "proved to follow the precedence word count, language, checksum, memory, unsupported; str_split is proved against a functional tokeniser "
        "specification for strings of any length (empty tokens kept, one trailing space ignored, 17th token reported).",
   note="Unbounded str_split proof uses woven loop invariants with bounded quantifiers over the 576-byte buffer; empty token never matches a word by T.token_safe.")
 P("C10", level="proof", design_ref="7/C10", units=uniq(FT + ["U.api.create", "U.api.load", "U.api.get_feature", "U.api.is_encrypted", "L.pack.inv1", "L.st.inv1", "U.api.crypt", "L.rt.index"] + DEC + ["U.bd.encode", "U.gf.pack", "U.gf.unpack", "U.st.store", "U.st.load", "U.api.store"]), engines=["statics"],
+  technique='CBMC 6.11 contracts: dfcc-enforced contracts of the feature functions (enable from an arbitrary previous mask), of create / load and the harness-enforced decoder contracts with a symbolic reserved mask; packing / storage / crypt lemmas carry all five bits; birthday clamp contract',
   text="polyseed_enable_features proved from an arbitrary previous mask (most recent call wins, popcount returned); "
        "features_supported, make/get_features, is_encrypted proved; create, both decoders and load proved to refuse exactly the reserved bits "
        "(create before allocating; the others after the checksum, freeing the block); feature bits carried by the phrase/storage/crypt lemmas.",
   note="The reserved mask is symbolic in every entry-point proof (all eight enabled masks).")
 P("C11", level="proof", design_ref="7/C11", units=["U.bd.encode", "U.bd.decode", "U.dep.stdlib_time", "U.api.get_birthday", "U.api.create", "L.pack.inv1", "L.st.inv1", "U.api.crypt", "L.rt.index", "U.gf.pack", "U.gf.unpack", "U.st.store", "U.st.load", "U.api.load"] + DEC,
+  technique='CBMC 6.11 contracts: birthday_encode / birthday_decode against a division-free specification over all 2^64 clock values (dfcc), polyseed_create with a ghost-recording clock stub, the libc fallback clock stdlib_time over all time_t values; packing / storage / crypt contracts carry the 10 bits',
   text="birthday_encode proved against a division-free specification for all 2^64 clock values; birthday_decode and "
        "polyseed_get_birthday proved = epoch + k*step without overflow; polyseed_create proved to stamp the seed from exactly "
        "one call of the injected clock; packing, storage and crypt contracts carry all 10 bits unchanged.",
   note="The clock is an injected dependency (assumed arbitrary uint64).")
 P("C12", level="proof", design_ref="7/C12", units=uniq(["U.api.crypt", "L.crypt.involution", "L.crypt.wrongpw", "U.str.nfkd_lazy", "U.api.is_encrypted", "U.ft.isenc"] + ["U.st.store", "U.st.load", "L.st.inv1", "U.gf.pack", "U.gf.unpack", "U.gf.encode", "L.pack.inv1", "U.api.store", "U.api.load"]), engines=["statics"],
+  technique="CBMC 6.11 contracts: harness-enforced contract of polyseed_crypt for every 32-byte mask with a ghost-recording PBKDF2 stub; involution and wrong-password lemmas; lazy NFKD contract (woven loop invariant); storage / packing contracts for 'usable like any seed'",
   text="polyseed_crypt proved for every 32-byte mask: one KDF call with pw = the normalised password without terminator, the 16-byte mask salt, "
        "10000 iterations, 32 bytes; 19 bytes XORed with the top two bits of the 19th dropped, flag toggled, birthday/user bits unchanged, check "
        "value recomputed (canonical for every mask); involution and wrong-password lemmas over that postcondition.",
@@ -128,24 +147,28 @@ P("C12", level="proof", design_ref="7/C12", units=uniq(["U.api.crypt", "L.crypt.
        "POLYSEED_STR_SIZE-1 bytes); longer ASCII passwords are truncated by the library -- outside the claimed domain, reported as an observation.")
 P("C13", level="proof", design_ref="7/C13", units=uniq(API_D + DEC + ["U.api.crypt", "U.api.encode", "U.ft.enable", "U.dep.inject", "U.gf.mul2"] + PACK + ["L.st.inv1", "L.rt.index", "L.crypt.involution"] + GF + FT + BD + ["U.st.store", "U.st.load", "L.st.inv2", "U.dep.stdlib_time"]),
   engines=["statics"],
+  technique='CBMC 6.11 contracts: representation invariant established / preserved by every operation (dfcc and harness-enforced contracts), frames by assigns clauses and snapshots; goto symbol-table and goto-program scan: the only mutable statics and their only writers; induction over histories is glue',
   text="Data refinement step by step: every constructor establishes the representation invariant (canonical) from a block with arbitrary "
        "contents, crypt preserves it, observers are functions of the abstract view; frames proved by dfcc assigns clauses / snapshots; the "
        "only mutable statics are the four known ones and each is written only by its owner (symbol-table + goto-program scan).",
   note="Induction over call histories is the standard, unmechanised glue; each step is machine-checked.",
   not_decided=["the induction over arbitrary finite histories itself"])
 P("C14", level="proof", design_ref="7/C14", units=uniq(["U.str.nfkd_lazy", "B.str.nfkd_lazy", "U.str.split", "U.lang.search", "U.st.load", "U.api.load", "U.api.crypt"] + CMPU + PHR + DEC + CMPB + ["U.gf.check", "U.gf.unpack"]), engines=["statics"],
+  technique='CBMC 6.11 contracts with bounds / pointer / overflow checks and library assert()s enabled on every unit; woven inductive invariants with decreases clauses close every string loop (memory safety and termination for any length); bounded shadow units without woven text; NDEBUG variants',
   text="Every unit runs with bounds, pointer, pointer-overflow, signed-overflow, shift and division checks and with the library's own assert()s "
        "enabled; all string loops (lazy NFKD, tokeniser, four comparers, linear search) are closed by inductive invariants with decreases "
        "clauses, so memory safety and termination hold for strings of any length; decoders/crypt/load return only documented statuses, do not "
        "write their input, and leave nothing allocated on failure.",
   note="Caller string objects are symbolic up to 1200 bytes (nfkd_lazy) / 576 bytes (comparer keys); bsearch trusted; dependency stubs assumed.")
 P("C15", level="proof", design_ref="7/C15", units=["U.api.create", "U.api.free", "U.api.load", "U.st.load", "U.gf.unpack"] + DEC,
+  technique='CBMC 6.11 contracts: allocator-ledger stubs (ghost state) in the dfcc-enforced contracts of create / load / free and the harness-enforced decoder contracts: at most one allocation, freed exactly once on failure after wiping, NULL handled, arbitrary block contents',
   text="Allocator ledger contracts: create, load and both decoders call the injected allocator at most once with sizeof(seed); every failure "
        "path returns the block through the injected free exactly once (after wiping) and leaves nothing live; NULL from the "
        "allocator gives the memory status with *seed_out untouched; polyseed_free(NULL) calls nothing; the free stub rejects "
        "foreign and repeated pointers; block contents are arbitrary in every proof.",
   note="'Subsequent calls behave normally' follows from the frame obligations of C13 (the only state is the ledger and the four statics).")
-P("C16", level="proof", design_ref="7/C16", units=["U.api.free", "U.api.crypt", "U.api.encode", "U.lang.phrase_decode", "U.api.create", "U.api.load"] + DEC, engines=["statics"],
+P("C16", level="proof", design_ref="7/C16", units=["U.api.free", "U.api.crypt", "U.api.encode", "U.lang.phrase_decode", "U.api.create", "U.api.load"] + DEC + NDEBUG, engines=["statics"],
+  technique='CBMC 6.11 contracts: memzero ghost log in polyseed_free / create / load contracts; woven exit assertions (every secret-bearing local all-zero and wiped through the injected function with its full size) on encode, decoders, crypt, auto-detection; repeated with assert()s compiled out (NDEBUG)',
   text="polyseed_free proved to wipe the block through the injected memzero before the injected free receives it; woven exit assertions prove "
        "that str_tmp, words, poly, mask, pass_norm and the index copy of auto-detection are all-zero and were wiped through the injected "
        "function with their full size on every exit of encode, both decoders, crypt and polyseed_phrase_decode; create/load wipe poly.",
@@ -153,22 +176,26 @@ P("C16", level="proof", design_ref="7/C16", units=["U.api.free", "U.api.crypt", 
        "source-level contract can express.",
   not_decided=["residue in registers / dead stack frames of the compiled binary; behaviour at other optimisation levels"])
 P("C17", level="proof", design_ref="7/C17", units=["U.str.write", "U.str.write.full", "U.api.encode", "U.str.nfkd_lazy"], engines=["tables", "statics"],
+  technique='exhaustive native evaluation of T.fits per language (NFKD and NFC forms, per-position maxima) + CBMC contracts: write_str advance contract (woven loop invariant), polyseed_encode cursor arithmetic and length assertion under fits, lazy NFKD bound; goto symbol-table scan for shared buffers',
   text="T.fits[lang]: for each registered language the sum of per-position maximal word lengths (admissible indices) plus separators is "
        "below POLYSEED_STR_SIZE in both the NFKD and the NFC form (exhaustive); write_str proved to advance by exactly strlen and to write only "
        "its slice; polyseed_encode proved, under fits, to keep every intermediate cursor and the terminator inside the buffer, to satisfy its own "
        "length assertion and to return the length of the output; decoders/crypt normalise without overrun.",
   note="NFC length bound uses utf8proc and the no-composition-across-separator fact (T.unicode).")
 P("C18", level="proof", design_ref="7/C18", units=["U.api.create", "U.dep.inject", "U.dep.stdlib_time", "U.api.keygen", "U.api.free"], engines=["calls", "statics"],
+  technique='CBMC 6.11 contracts: polyseed_create with ghost-recording randomness / clock stubs and every other dependency requires(false); polyseed_inject from an arbitrary previous table; stdlib_time; goto-program scan of direct call targets and address-taken externals',
   text="polyseed_create proved to take exactly 19 bytes from the injected random source into the secret (top two bits dropped), to call the "
        "injected clock exactly once and nothing else; polyseed_inject proved, from an arbitrary previous table, to copy every entry and to fall "
        "back to libc time/malloc/free exactly for NULL entries; goto-program scan: no direct call to any other external function.",
   note="The scan is of direct call targets before function-pointer removal; pointer calls must go through a polyseed_deps member.")
 P("C19", level="proof", design_ref="7/C19", both_chars=True, units=uniq(["U.str.nfkd_lazy", "B.str.nfkd_lazy", "U.api.crypt", "U.str.split"] + DEC + PHR + CMPU + CMPB + CMPF), engines=["tables"],
+  technique='every char-sensitive CBMC unit (lazy NFKD, tokeniser, comparers: functional rule, safety, bounded shadows; decoders, crypt) and every closed word-list fact evaluated under both -fsigned-char and -funsigned-char against the same byte-value specification',
   text="Every unit that handles plain char (lazy NFKD, tokeniser, the four comparers: unbounded safety and bounded rule, both decoders, crypt, the "
        "phrase decoders) is verified under -fsigned-char and -funsigned-char against the same byte-value specification; all closed word-list facts (sortedness, search, acceptance rule) are "
        "evaluated with both settings and must agree.",
   note="All other functions do not operate on plain char values (byte arrays are uint8_t); goto-cc honours -funsigned-char (measured).")
 P("C20", level="other", design_ref="7/C20", units=API_D + DEC + ["U.api.crypt", "U.api.encode", "U.dep.inject", "U.ft.enable"], engines=["statics", "calls"],
+  technique='sufficient condition only: frames of every API function (dfcc assigns clauses / snapshots), goto symbol-table scan (no mutable static-lifetime object besides the four known ones, each written only by its owner), goto-program scan of call targets (no libc function with hidden state); race-freedom itself is a written meta-argument',
   text="Sequential contracts cannot explore schedules; what is proved is the sufficient condition: every API function other than "
        "inject/enable_features writes only objects reachable from its arguments, its locals and blocks it allocated (frames), and the only "
        "mutable static-lifetime objects are the four known ones, written only by inject/enable_features; no function-local statics.",
